@@ -350,6 +350,16 @@ class Result:
             self.samples.append(obj)
 
     def disagree(self, what, case, model, impl, sig=None, theorem=None):
+        # keep every kind of disagreement visible: at most 6 per (what, exception) and 50 in total
+        key = (what, (sig or {}).get('exception'), (sig or {}).get('category'), (sig or {}).get('entry'))
+        self._per_kind = getattr(self, '_per_kind', {})
+        self._per_kind[key] = self._per_kind.get(key, 0) + 1
+        if self._per_kind[key] > 6:
+            self.extra['more_disagreements'] = self.extra.get('more_disagreements', 0) + 1
+            self.extra.setdefault('suppressed_repeats', {})
+            self.extra['suppressed_repeats'][what[:60]] = self._per_kind[key] - 6
+            self._suppressed_any = True
+            return
         if len(self.disagreements) < 50:
             self.disagreements.append(dict(property=self.pid, what=what, input=case, model=model, impl=impl,
                                            sig=sig or {}, theorem=theorem, seed=self.seed, tier=self.tier))
